@@ -15,7 +15,11 @@
  *               1790000000, 4102444799, 253402300799 (year 9999), -1 (failure); the fake clock ticks
  *               by one second per call, so two samples across a day boundary would disagree
  * and every combination in which at most K dimensions deviate from their default is executed
- * (K = 4: all quadruples; thorough: larger alphabets).
+ * (K = 4: all quadruples; thorough: larger alphabets; --deep, given by ./check to the thorough tier
+ * only: one more deviating dimension than --k says, i.e. K = 5, all quintuples over the thorough
+ * alphabets -- for the two six-dimensional variants that is everything but the combinations in
+ * which all six dimensions deviate.  The alphabets and so the meaning of a replay's indices do not
+ * change; the work is cut into smaller units: variant x the first three dimensions).
  *
  * Oracle, per case: the request printed in aws_sign.h is assembled from the inputs and the
  * *returned* strings and handed to the verifier together with the secret.  The verifier parses
@@ -68,6 +72,7 @@ static const int VDIMS[V_N][9] = {
 	{ D_KEYID, D_SECRET, D_REGION, D_OP, D_BODY, D_TIME, -1, -1, -1 },
 };
 static int K;	/* maximal number of dimensions deviating together */
+static int deep;	/* --deep: K + 1 deviating dimensions, units over three dimensions */
 static int empty_path;	/* --empty-path: the length-0 path value is "" instead of "/" (see header) */
 
 static const int LEN_Q[] = { 0, 1, 2, 3, 8, 64, 200 };
@@ -262,8 +267,22 @@ rec(int pos, int left, int idx[D_N])
 	idx[dim] = 0; rec(pos + 1, left, idx);
 	if (left > 0) { n = nvals(dim); for (i = 1; i < n; i++) { idx[dim] = i; rec(pos + 1, left - 1, idx); } idx[dim] = 0; }
 }
-/* unit = variant, value of the first dimension, value of the second dimension */
-static int UN0, UN1;
+/* unit = variant, value of the first dimension, value of the second dimension (deep: and of the third) */
+static int UN0, UN1, UN2;
+static void
+unit_deep(uint64_t u)
+{
+	int idx[D_N] = { 0 }, v, a, b, c = (int)(u % (uint64_t)UN2), left = K;
+	u /= (uint64_t)UN2; b = (int)(u % (uint64_t)UN1); u /= (uint64_t)UN1; a = (int)(u % (uint64_t)UN0); v = (int)(u / (uint64_t)UN0);
+	if (a >= nvals(VDIMS[v][0]) || b >= nvals(VDIMS[v][1]) || c >= nvals(VDIMS[v][2])) return;
+	if (a) left--;
+	if (b) left--;
+	if (c) left--;
+	if (left < 0) return;
+	cur_variant = v; idx[VDIMS[v][0]] = a; idx[VDIMS[v][1]] = b; idx[VDIMS[v][2]] = c;
+	rec(3, left, idx);
+	if (a == 0 && b == 0 && c == 0) { struct kase k; char d[1200]; mkcase(&k, v, idx); describe(&k, d, sizeof(d)); vf_sample("%s -> verified", d); }
+}
 static void
 unit(uint64_t u)
 {
@@ -299,6 +318,8 @@ main(int argc, char ** argv)
 	K = 4;
 	for (i = 1; i + 1 < argc; i++) if (!strcmp(argv[i], "--k")) K = atoi(argv[i + 1]);
 	for (i = 1; i < argc; i++) if (!strcmp(argv[i], "--empty-path")) empty_path = 1;
+	for (i = 1; i < argc; i++) if (!strcmp(argv[i], "--deep")) deep = 1;
+	if (deep) { vf_tier = 1; K++; }	/* the thorough alphabets, one more deviating dimension */
 	if (vf_replay && strstr(vf_replay, "\"empty_path\":1")) empty_path = 1;
 	if ((st = sigv4_selftest()) != 0) vf_engine_error("sigv4_ref self-test (AWS documentation examples) failed: %d", st);
 	BODYBUF = malloc(102400 + 8);
@@ -320,8 +341,9 @@ main(int argc, char ** argv)
 		return bad ? 1 : 0;
 	}
 	vf_count("exhaustive", 0);
-	UN0 = nvals(D_KEYID); UN1 = nvals(D_SECRET);
-	vf_parallel((uint64_t)V_N * (uint64_t)UN0 * (uint64_t)UN1, unit);
+	UN0 = nvals(D_KEYID); UN1 = nvals(D_SECRET); UN2 = nvals(D_REGION);	/* the first three dimensions of every variant */
+	if (deep) vf_parallel((uint64_t)V_N * (uint64_t)UN0 * (uint64_t)UN1 * (uint64_t)UN2, unit_deep);
+	else vf_parallel((uint64_t)V_N * (uint64_t)UN0 * (uint64_t)UN1, unit);
 	if (vf_nviolations() == 0 && !vf_deadline_hit()) {
 		if (vf_getcount("time_failure_reported") == 0) vf_engine_error("time() failure path never reached");
 		if (vf_getcount("bodies_100KiB") == 0) vf_engine_error("100 KiB body never signed");
